@@ -6,7 +6,7 @@
   the implementation — so no schedule can make it wait for them. Wall-clock promptness is
   observed by the correspondence, not proved.
 -/
-import G9Proofs.Lemmas.LifeReach
+import G9Proofs.Lemmas.LifeFifo
 namespace G9.C08
 open G9 G9.Life
 
@@ -96,5 +96,37 @@ example : ((LS.init 1).run [.recv 6 none, .check 0, .dispatch 0, .recv 5 none, .
     .answer 1, .mark 0, .post 0, .queue 0, .unlink 0, .next 0, .check 2, .dispatch 2, .answer 2, .mark 1, .post 1,
     .send, .queue 1, .send]).map (fun s => (s.wire, s.implLog, (s.req 0).wpc)) = some ([1, 2], [0, 1, 2], .inImpl) := by
   decide
+
+/-- **Shared tag: one at a time, in arrival order, answered in that order** (partial: sessions
+    without Tflush — `LS.plain`; with flushes in the group the tag chain is cut, K-6, and the
+    correspondence decides). For requests `a < b` (arrival order) under one tag, in every state
+    a plain schedule reaches:
+    * if `b` has been handed to the implementation, `a` was handed over before it, and `a` has
+      already left the tag table — nothing of `a` can be queued any more (one at a time);
+    * if `b`'s reply is queued or written, `a`'s reply, if there is one, was queued before it. -/
+theorem shared_tag_fifo_partial (cap : Nat) (es : List Ev) (s : LS) (h : (LS.init cap).runP es = some s)
+    (a b : Nat) (hab : a < b) (hb : b < s.n) (htag : (s.req a).tag = (s.req b).tag) :
+    (b ∈ s.implLog → BeforeL s.implLog a b ∧ a ∈ s.unl ∧ NoFuture s a) ∧
+    (b ∈ out s → (a ∈ out s → Before (out s) a b)) := by
+  obtain ⟨_, _, _, hP⟩ := pi_runP es _ s (inv_init cap) (fi_init cap) (w3_init cap) (pi_init cap) h
+  constructor
+  · intro hbl
+    have hau := hP.st b hb (hP.a2 b hbl).2 a hab htag
+    exact ⟨hP.ex a b hab hb htag hbl, hau, (hP.un a hau).2⟩
+  · intro hbo
+    exact (hP.ord a b hab hb htag hbo).2
+
+/-- in such sessions the tag table of a tag is exactly the set of its received requests that have
+    not yet left it through their own Respond, newest first -/
+theorem tag_table_exact (cap : Nat) (es : List Ev) (s : LS) (h : (LS.init cap).runP es = some s) (T a : Nat) :
+    (a ∈ s.chain T ↔ (a < s.n ∧ (s.req a).tag = T ∧ a ∉ s.unl)) ∧ (s.chain T).Pairwise (· > ·) := by
+  obtain ⟨_, _, _, hP⟩ := pi_runP es _ s (inv_init cap) (fi_init cap) (w3_init cap) (pi_init cap) h
+  exact ⟨hP.mem T a, hP.srt T⟩
+
+/-! ### non-vacuity: three requests under tag 5 answered 0,1,2 although the implementation is ready in any order -/
+example : ((LS.init 1).runP [.recv 5 none, .recv 5 none, .recv 5 none, .check 0, .dispatch 0, .answer 0, .mark 0, .post 0,
+    .queue 0, .unlink 0, .next 0, .check 1, .dispatch 1, .send, .answer 1, .mark 1, .post 1, .queue 1, .unlink 1, .next 1,
+    .check 2, .dispatch 2, .answer 2, .mark 2, .post 2, .send, .queue 2, .send]).map
+    (fun s => (s.wire, s.implLog, s.unl)) = some ([0, 1, 2], [0, 1, 2], [1, 0]) := by decide
 
 end G9.C08
